@@ -76,11 +76,14 @@ def counting_sampler(kind):
     return s
 
 
-def align_in_mode(continuum, dissim, mode):
+def align_in_mode(continuum, dissim, mode, window=None):
+    """`window`: the window size measured on the INPUT continuum - in fast mode the chance alignments are "the same kind of
+    alignment" as the observed one, i.e. windowed with that size (inf = the input was too small: exact alignments)."""
     if mode == "soft":
         return continuum.get_best_soft_alignment(dissim)
-    if mode == "fast" and continuum.best_window_size != np.inf:
-        return continuum.get_fast_alignment(dissim, continuum.best_window_size)
+    w = continuum.best_window_size if window is None else window
+    if mode == "fast" and w != np.inf:
+        return continuum.get_fast_alignment(dissim, w)
     return continuum.get_best_alignment(dissim)
 
 
@@ -189,7 +192,9 @@ def check_gamma(ctx, case, continuum, dissim, sampler, res, gt):
             ctx.fail(f"{mode}:chance-alignment-invalid", {"i": i, "problems": pr}, monitor="M-GAMMA-RECOMPUTE")
             continue
         try:
-            again = align_in_mode(a.continuum, dissim, mode)
+            again = align_in_mode(a.continuum, dissim, mode, window=continuum.best_window_size)
+            if mode == "fast":
+                ctx.observe("fast_chance_recomputed_with_window", "finite" if continuum.best_window_size != np.inf else "inf")
         except Exception as e:
             ctx.fail_exc(f"{mode}:recompute-chance-raises:{type(e).__name__}", e, monitor="M-GAMMA-RECOMPUTE")
             continue
@@ -417,6 +422,25 @@ def run(ctx):
                               {"ground_truth": cases.ANNOTATOR_NAMES[:2], "n_samples": 2, "precision": None, "mode": "soft", "np_seed": 6}]}):
         ctx.begin_case(case)
         ctx.observe("mode", "deterministic-first-block")
+        check_case(ctx, case)
+    # ... and the forms in which the arguments arrive: a numpy float32 precision that calls for a second batch; the
+    # fast / soft switches as 1 / numpy bools / None
+    comb0 = {"kind": "combined", "alpha": 1.0, "beta": 1.0, "delta": 1.0, "pos": None, "cat": None}
+    for k0, (mode, at) in enumerate([("exact", {"precision": "float32", "off": "npbool"}), ("soft", {"on": "npbool", "off": "none"}),
+                                     ("soft", {"on": "one", "off": "zero"}), ("fast", {"on": "one", "off": "npbool", "precision": "float32"})]):
+        cs0 = cases.gen_continuum(rng, n_annot=3, sizes=[4, 3, 4], family="longoverlap", labels=cases.LABELS_SMALL)
+        case = {"continuum": cs0, "dissim": comb0, "n_samples": 4, "precision": "auto", "target_N": 11.0, "sampler": "statistical",
+                "mode": mode, "ground_truth": None, "np_seed": 21 + k0, "identical": False, "arg_types": at}
+        ctx.begin_case(case)
+        ctx.observe("mode", "deterministic-first-block(argument forms)")
+        check_case(ctx, case)
+    # ... and fast mode on inputs large enough for a finite window: every chance alignment must be windowed like the observed one
+    for k0 in range(ctx.scale(2, 12)):
+        cs0 = cases.gen_continuum(rng, n_annot=4, sizes=[14] * 4, family="grid", labels=cases.LABELS_SMALL)
+        case = {"continuum": cs0, "dissim": comb0, "n_samples": 4, "precision": None, "sampler": rng.choice(["statistical", "shuffle_float"]),
+                "mode": "fast", "ground_truth": None, "np_seed": 31 + k0, "identical": False}
+        ctx.begin_case(case)
+        ctx.observe("mode", "deterministic-first-block(fast, finite window)")
         check_case(ctx, case)
     label_free = [d for d in dspecs if cases.dissim_labels(d) is None]
     for i in range(ctx.scale(3, 30)):
